@@ -22,7 +22,7 @@ META = {
               "AstropyTable -> recording table (meta only)", "NssConfig(**kwargs) inside config_from_fits -> recorder; the model's own before-validators are then applied to each reconstructed leaf"],
     "assumptions": ["REAL mode; rad<->deg conversion factors are astropy's doubles (their product differs from 1 by < 2.3e-16): reconstructed angles are compared within 4e-16 relative", "printing a double and parsing the text back is exact (Python float repr round-trips)"],
 }
-LEDGER = {"quick": 190, "thorough": 190}
+LEDGER = {"quick": 200, "thorough": 200}
 
 FLOAT_LEAVES = {
     ("detector", "initial_position", "altitude"), ("detector", "initial_position", "latitude"), ("detector", "initial_position", "longitude"),
@@ -43,6 +43,7 @@ def _name(path):
 def build(spectrum, cloud):
     """(namespaces, symbolic config, {path: original value})"""
     cns = load.load("nuspacesim.config", {"Quantity": units.Quantity}, np=None)
+    cns["int"] = core.sym_int  # run-time int(...) calls in the module keep symbolic values symbolic (installed after the models are built)
     NssConfig, Sim = cns["NssConfig"], cns["Simulation"]
     cfg = NssConfig().model_copy(deep=True)
     cfg.title = "run 7"
@@ -129,7 +130,8 @@ def roundtrip_run(spectrum, cloud):
         claims["header has exactly one HIERARCH Config key per leaf of the configuration dump"] = z3.BoolVal(
             len(cfgkeys) == len(leaves) and all(("HIERARCH Config " + " ".join(p)) in meta for p in leaves))
         claims["no two configuration leaves collide on a header key (case-insensitively)"] = z3.BoolVal(len({k.upper() for k in cfgkeys}) == len(leaves))
-        claims["every header value is the dumped leaf value"] = z3.BoolVal(all(meta["HIERARCH Config " + " ".join(p)] is v or meta["HIERARCH Config " + " ".join(p)] == v for p, v in leaves.items()))
+        _miss = object()
+        claims["every header value is the dumped leaf value"] = z3.BoolVal(all(meta.get("HIERARCH Config " + " ".join(p), _miss) is v or meta.get("HIERARCH Config " + " ".join(p), _miss) == v for p, v in leaves.items()))
         claims["start time recorded"] = z3.BoolVal("simTime" in meta)
         # ---- read it back through the real config_from_fits ------------------------------
         hdr = Header(meta)
@@ -201,7 +203,7 @@ def flatten_run():
 
 
 def job_roundtrip(spectrum, cloud, tier):
-    return harness.run_job(f"results header round trip ({spectrum}, {cloud})", roundtrip_run(spectrum, cloud), timeout_ms=60000, second=(tier == "thorough"))
+    return harness.run_job(f"results header round trip ({spectrum}, {cloud})", roundtrip_run(spectrum, cloud), timeout_ms=60000, second=(tier == "thorough"), max_paths=24)
 
 
 def job_flatten(tier):
@@ -218,20 +220,44 @@ def jobs(tier, seed):
 
 def replay(v):
     """End to end on the real code: real table, real FITS file, real config_from_fits."""
+    import math
+
+    job, ob = v.get("job", ""), v["obligation"]
+    if not job.startswith("results header round trip"):
+        return {"reproduced": False, "key": None, "detail": "structural claim"}
+    m = {k: x for k, x in (v.get("model") or {}).items() if x is not None}
+    extra = {("simulation", "spectrum", "log_nu_energy"), ("simulation", "spectrum", "index"), ("simulation", "spectrum", "lower_bound"), ("simulation", "spectrum", "upper_bound"),
+             ("simulation", "cloud_model", "altitude")}
+    paths = sorted(FLOAT_LEAVES | extra)
+    if "reconstructed" in ob:
+        # the obligation is about ONE leaf: the model's value for it, then (int()/trunc is abstracted without
+        # integrality in the encoding) the half-integers next to it
+        leaf = tuple(ob.split("reconstructed ")[1].split(" ==")[0].split("."))
+        x = m.get(_name(leaf))
+        tries = ([float(x), math.floor(abs(float(x))) + 0.5] if x is not None else []) + [7.5, 0.5]
+        for val in tries:
+            r = _real_roundtrip(job, ob, {leaf: val}, leaf)
+            if r is not None:
+                return r
+        return {"reproduced": False, "key": None, "detail": f"real round trip agrees for {'.'.join(leaf)} in {tries}"}
+    r = _real_roundtrip(job, ob, {p: float(m[_name(p)]) for p in paths if _name(p) in m}, None)
+    return r or {"reproduced": False, "key": None, "detail": "real round trip agrees"}
+
+
+def _real_roundtrip(job, ob, values, leaf):
+    """-> reproduction record or None.  `values`: {path: value} applied to a valid base configuration; an
+    assignment that makes the configuration invalid (the model constrains only what the path needs) is skipped."""
     import os
     import tempfile
     import warnings
 
     import numpy as np
+    from astropy.io import fits as _fits
 
     from nuspacesim import results_table
     from nuspacesim.config import NssConfig, Simulation, config_from_fits
 
-    job, ob = v.get("job", ""), v["obligation"]
-    if not job.startswith("results header round trip"):
-        return {"reproduced": False, "key": None, "detail": "structural claim"}
     spectrum = "power" if "(power" in job else "mono"
-    m = {k: x for k, x in (v.get("model") or {}).items() if x is not None}
     cfg = NssConfig()
     cfg.detector.initial_position.latitude = 0.3
     cfg.detector.initial_position.longitude = 1.1
@@ -240,30 +266,63 @@ def replay(v):
         cfg.simulation.spectrum = Simulation.PowerSpectrum(index=2.2, lower_bound=7.0, upper_bound=10.0)
     else:
         cfg.simulation.spectrum = Simulation.MonoSpectrum(log_nu_energy=9.5)
-    for k, x in m.items():
-        path = k[len("cfg_"):]
-    with tempfile.TemporaryDirectory() as d, warnings.catch_warnings():
+    cloud = job.split(", ")[1].rstrip(")") if ", " in job else "no_cloud"
+    if cloud == "monocloud":
+        cfg.simulation.cloud_model = Simulation.MonoCloud(altitude=2.5)
+    elif cloud == "pressure_map":
+        cfg.simulation.cloud_model = Simulation.PressureMapCloud(month=7)
+    applied = {}
+    with warnings.catch_warnings():
         warnings.simplefilter("ignore")
-        t = results_table.init(cfg)
-        t.add_columns([np.arange(3.0)], names=["beta_rad"])
-        p = os.path.join(d, "r.fits")
-        t.write(p, format="fits", overwrite=True)
-        try:
-            back = config_from_fits(p)
-        except Exception as ex:
-            if "config_from_fits succeeds" in ob or "reconstructed" in ob:
+        for path, x in values.items():
+            o = cfg
+            try:
+                for k in path[:-1]:
+                    o = getattr(o, k)
+                if not hasattr(o, path[-1]):
+                    continue
+                old = getattr(o, path[-1])
+                setattr(o, path[-1], float(x))
+                try:
+                    NssConfig.model_validate(cfg.model_dump())
+                    applied[".".join(path)] = float(x)
+                except Exception:  # noqa
+                    setattr(o, path[-1], old)
+            except Exception:  # noqa
+                pass
+        if leaf is not None and ".".join(leaf) not in applied:
+            return None
+        with tempfile.TemporaryDirectory() as d:
+            t = results_table.init(cfg)
+            t.add_columns([np.arange(3.0)], names=["beta_rad"])
+            p = os.path.join(d, "r.fits")
+            t.write(p, format="fits", overwrite=True)
+            if leaf is None:
+                with _fits.open(p) as hd:
+                    hdr = hd[1].header
+                    for path, val in _leaves(cfg.model_dump()):
+                        if val is None:
+                            continue
+                        key = "Config " + " ".join(path)
+                        if key not in hdr:
+                            return {"reproduced": True, "key": "results header lacks a configuration entry",
+                                    "detail": f"configuration leaf {'.'.join(path)} = {val!r} has no header card '{key}' in the written file (valid configuration; non-default values: {applied})"}
+                        got = hdr[key]
+                        if not (got == val or (isinstance(val, float) and abs(got - val) <= 1e-12 * abs(val))):
+                            return {"reproduced": True, "key": "results header value differs from the configuration", "detail": f"{key}: header {got!r}, configuration {val!r}"}
+            try:
+                back = config_from_fits(p)
+            except Exception as ex:
                 return {"reproduced": True, "key": f"config_from_fits raises {type(ex).__name__} for a {spectrum} spectrum run",
-                        "detail": f"config_from_fits on a results file of a {spectrum}-spectrum run raised {type(ex).__name__}: {ex}"}
-            return {"reproduced": False, "key": None, "detail": f"raised {ex}"}
-    if "reconstructed" in ob:
-        path = ob.split("reconstructed ")[1].split(" ==")[0].split(".")
+                        "detail": f"config_from_fits on a results file of a valid {spectrum}-spectrum configuration ({applied}) raised {type(ex).__name__}: {ex}"}
+    if leaf is not None:
         a, b = cfg, back
-        for k in path:
+        for k in leaf:
             a, b = getattr(a, k), getattr(b, k)
         same = (abs(a - b) <= 1e-12 * max(1.0, abs(a))) if isinstance(a, float) else (a == b)
         if not same:
-            return {"reproduced": True, "key": f"config_from_fits: {'.'.join(path)} differs from the original", "detail": f"original {'.'.join(path)} = {a!r}, reconstructed {b!r}"}
-    return {"reproduced": False, "key": None, "detail": "real round trip agrees"}
+            return {"reproduced": True, "key": f"config_from_fits: {'.'.join(leaf)} differs from the original", "detail": f"original {'.'.join(leaf)} = {a!r}, reconstructed {b!r}"}
+    return None
 
 
 MANIFEST_ENTRY = {
